@@ -27,7 +27,7 @@ NOS = [
 NAMES = [
     {"a": "eth0", "b": "eth1", "c": "eth2", "zz": "eth9"},
     {"a": "s1-eth1", "b": "abcdefghijklmnop", "c": "", "zz": "abcdefghijklmno"},   # 16 chars (no NUL), empty
-    {"a": "1", "b": "eth0", "c": "\xe9t\xe9", "zz": "2"},                          # looks like a number; latin-1
+    {"a": "1", "b": "eth0", "c": "veth-1.100@if2", "zz": "2"},                    # looks like a number; punctuation
 ]
 HWS = [
     {"A": "00:00:00:00:00:01", "B": "00:00:00:00:00:02", "C": "00:00:00:00:00:03", "ZZ": "00:00:00:00:00:09"},
